@@ -36,8 +36,11 @@ RULE = ("cases = (a) documented spellings of boundary and random IPv4 addresses 
         "the real cmdline.main with client.main replaced by a recorder; (h) -l/--listen occurrences naming one or both "
         "address families in the environment and/or repeatedly on the command line, expected listeners = those of the "
         "last occurrence alone; (i) subnet files for -s and -X: lines sharing address and width but differing in port / "
-        "range, comments, blank and indented lines, exact duplicates, a bad line, expected includes/excludes at "
-        "client.main = every listed line with its own ports; plus library "
+        "range, comments, blank and indented lines, exact duplicates, expected includes/excludes at "
+        "client.main = every listed line with its own ports; and the rejection classes of the command line (width out of "
+        "range for IPv4 / IPv6 / bracketed, unparsable text, unresolvable host) as 1-3 lines of a file in first / middle / "
+        "last position with and without comments and blank lines around, through parse_subnetport_file, the parser "
+        "(-s / -X) and cmdline.main: the file must be rejected with the documented error; plus library "
         "streams (regex engine, glibc numeric getaddrinfo, inet_aton/pton/ntop, ipaddress, int()). Verbosity is a "
         "dimension of every case: the level comes from the rotation [0,0,3,0,2,0,3,1] shifted by the seed, is put on "
         "the real command line as -v/-vv/-vvv/--verbose (argv front or end, SSHUTTLE_ARGS, or split between both) for "
@@ -1175,6 +1178,85 @@ def file_case(ctx, R, tmpdir, content, expect, option, n):
     return cases
 
 
+# texts the property says are rejected on the command line, with the class of the rejection
+REJECTED_LINES = [
+    ('10.1.0.0/33', 'fatal cidrRange'), ('fd00::/129', 'fatal cidrRange'), ('[fd00::/200]:80', 'fatal cidrRange'),
+    ('1.2.3.4/4294967296', 'fatal cidrRange'), ('0x7f.1/40:80-90', 'fatal cidrRange'),
+    ('1.2.3.4:80:90', 'fatal badFormat'), ('[[::1]]', 'fatal badFormat'), ('1.2.3.4/-1', 'fatal badFormat'),
+    ('1.2.3.4 5.6.7.8', 'fatal badFormat'), ('fe80::1%eth0', 'fatal badFormat'), ('10.0.0.0/8/8', 'fatal badFormat'),
+    ('nosuch.test', 'fatal unresolved'), ('256.1.1.1', 'fatal unresolved'), ('1.2.3.4.5/24', 'fatal unresolved'),
+    ('1:2:3:4:5:6:7:8:9', 'fatal unresolved'),
+]
+
+
+def run_reject_file(R, path, option):
+    """a file with a rejected line, three ways: the type function itself, the parser, cmdline.main.
+    Returns (description, all three rejected as documented)."""
+    import argparse
+    R.log.idna = {}
+    k1, v1 = R.quiet(R.options.parse_subnetport_file, path)
+    d1 = exc_class(v1) if k1 == 'exc' else 'ok %d line(s)' % len(v1)
+    ok1 = k1 == 'exc' and isinstance(v1, argparse.ArgumentTypeError)
+    k2, v2 = R.quiet(R.options.parser.parse_args, [option, path, '192.0.2.0/24'])
+    d2 = layer_class(k2, v2)
+    ok2 = d2 == 'usage'
+    _ns, captured, _args = R.main_with_env(None, [option, path, '192.0.2.0/24'], stop_after_parse=False)
+    k3, v3 = R.last
+    ok3 = captured is None and k3 == 'exc' and isinstance(v3, SystemExit) and v3.code == 2
+    d3 = 'client.main called' if captured is not None else layer_class(k3, v3)
+    return 'parse_subnetport_file: %s; parser %s: %s; cmdline.main: %s' % (d1, option, d2, d3), ok1 and ok2 and ok3
+
+
+def reject_file_case(ctx, R, rng, tmpdir, i, n):
+    """valid lines with 1-3 rejected lines hidden among them: first / middle / last position,
+    with or without comments and blank lines around"""
+    R.begin_case()
+    content, _e = build_subnet_file(rng)
+    valid = [l for l in content.split('\n') if l.strip() and not l.strip().startswith('#')] or ['10.9.0.0/16']
+    if i < 3:                      # three minimal files first, so that a failure is reported on a short one
+        valid = ['10.1.0.0/16', '10.2.0.0/16:80']
+    nbad = 1 + (i // 6) % 3
+    bad = [REJECTED_LINES[(i * 7 + j * 5) % len(REJECTED_LINES)] for j in range(nbad)]
+    pos = i % 3
+    lines = list(valid)
+    for j, (txt, _cls) in enumerate(bad):
+        where = 0 if pos == 0 else len(lines) if pos == 2 else max(1, len(lines) // 2)
+        deco = rng.choice(['', ' ', '\t']) + txt + rng.choice(['', '  '])
+        if (i // 3) % 2:
+            lines[where:where] = ['# next entry', '', deco, '   ', '#' + txt]
+        else:
+            lines.insert(where, deco)
+        pos = (pos + 1) % 3 if j else pos
+    if (i // 3) % 2:
+        lines = ['# generated', ''] + lines + ['', '# end']
+    content = '\n'.join(lines) + ('\n' if i % 2 else '')
+    option = ['-s', '-X'][(i // 2) % 2]
+    path = os.path.join(tmpdir, 'reject-%d.txt' % n)
+    with open(path, 'w', encoding='ascii', newline='') as f:
+        f.write(content)
+    try:
+        out, good = run_reject_file(R, path, option)
+        ctx.hist('file-reject:%s:%d-bad:%s' % (option, nbad, ['first', 'middle', 'last'][i % 3]))
+        if not good:
+            ctx.violation('C16:file:rejected-line-accepted',
+                          case=dict(stream='file-reject', option=option, content=content, bad=[b[0] for b in bad]),
+                          expected='the file is rejected with the documented error (ArgumentTypeError from the type '
+                                   'function, usage error from the parser and from cmdline.main): it contains %s'
+                                   % ', '.join(repr(b[0]) for b in bad),
+                          observed=out)
+        # correspondence with the model of parse_subnetport_file (the first rejected line decides)
+        R.log.idna = {}
+        kind, val = R.quiet(R.options.parse_subnetport_file, path)
+        if kind == 'ok':
+            direct = 'ok ' + ('|'.join((';'.join('%d,%s,%d,%d,%d' % (fam_no(f), a, w, fp, lp) for (f, a, w, fp, lp) in grp) or '-')
+                                       for grp in val) or '-')
+        else:
+            direct = exc_class(val)
+        return [Case('file', 'file %s%s' % (hx(content), idna_tokens(R.log)), direct, True, content)]
+    finally:
+        os.unlink(path)
+
+
 def file_cases(ctx, R, rng):
     import tempfile
     cases = []
@@ -1195,6 +1277,10 @@ def file_cases(ctx, R, rng):
             ls = content.split('\n')
             ls.insert(rng.randrange(len(ls) + 1), rng.choice(['1.2.3.4/33', '::/129', 'a..b', '1.2.3.4:80:90', 'nosuch.test', '1.2.3.4/' + '1' * 4301, '[[::1]]']))
             cases += file_case(ctx, R, tmpdir, '\n'.join(ls), None, '-s', n)
+            n += 1
+        # the rejection classes of the command line, as lines of files
+        for i in range(ctx.scale(108, 2160)):
+            cases += reject_file_case(ctx, R, rng, tmpdir, i, n)
             n += 1
     finally:
         os.rmdir(tmpdir)
@@ -1589,6 +1675,18 @@ def _replay(ctx, rep):
             obs = None if got is None else canon_subnets(got[1] if case['option'] == '-X' else got[0])
             return obs != want, '%s <file %r>: client.main got %s; the file lists %s' % (
                 case['option'], case['content'], 'nothing' if obs is None else sorted(obs), sorted(want))
+        if st == 'file-reject':
+            import tempfile
+            d = tempfile.mkdtemp(prefix='c16-replay-')
+            path = os.path.join(d, 'subnets.txt')
+            try:
+                with open(path, 'w', encoding='ascii', newline='') as f:
+                    f.write(case['content'])
+                out, good = run_reject_file(R, path, case['option'])
+            finally:
+                os.unlink(path)
+                os.rmdir(d)
+            return (not good), 'file %r (rejected text: %s): %s' % (case['content'], case.get('bad'), out)
         if st == 'unresolvable':
             out, good = run_unresolvable(R, case['kind'], case['s'])
             return (not good), '%s %r -> %s' % (case['kind'], case['s'], out)
